@@ -1,5 +1,6 @@
 import ParryModel.Proto
 import ParryModel.C12.Model
+import ParryModel.C12.ModelPoly
 import Std.Data.HashMap
 /-!
 C12 follow-up oracles (exact rational arithmetic on the implementation's output):
@@ -286,5 +287,35 @@ def scaleOracle (k : Int) (o : List String) : String :=
       if !((h1.zip h2).all fun (p, p') => eq3 ((q3 p).smul s) (q3 p')) then "fail hull-vertices-change-with-scale" else
       if !(t1 == t2) then "fail hull-faces-change-with-scale" else "pass"
     | _, _ => "fail unparsable-output"
+
+/-! ## model side: print a `Poly Float` exactly like `dump_poly` -/
+
+def fo3 (o : Option (V3 Float)) : String := match o with | some v => fv3 v | none => "x x x"
+
+def dumpPoly (p : Poly Float) : String :=
+  let ids (a : Array Nat) : List String := toString a.size :: a.toList.map toString
+  let nfs := (List.range p.faces.size).map fun i => fo3 (faceNormal p i)
+  let nes := (List.range p.edges.size).map fun i => fo3 (edgeNormal p i)
+  let nvs := (List.range p.vertices.size).map fun i =>
+    match vertexNormal p i with
+    | none => "x x x"
+    | some none => "n n n"
+    | some (some v) => fv3 v
+  String.intercalate " " (
+    ["P", toString p.pts.size] ++ p.pts.toList.map fv3 ++
+    ["F", toString p.faces.size] ++ p.faces.toList.map (fun f => s!"{f.first} {f.num} {fv3 f.normal}") ++
+    ["E", toString p.edges.size] ++ p.edges.toList.map (fun e => s!"{e.v0} {e.v1} {e.f0} {e.f1} {fv3 e.dir}") ++
+    ["V", toString p.vertices.size] ++ p.vertices.toList.map (fun v => s!"{v.first} {v.num}") ++
+    ["VF"] ++ ids p.verticesAdjToFace ++ ["EF"] ++ ids p.edgesAdjToFace ++ ["FV"] ++ ids p.facesAdjToVertex ++
+    ["NF", toString p.faces.size] ++ nfs ++ ["NE", toString p.edges.size] ++ nes ++ ["NV", toString p.vertices.size] ++ nvs)
+
+def polyModel (pts : List (V3 Float)) (tris : List (Nat × Nat × Nat)) : String :=
+  match fromConvexMesh pts.toArray tris with
+  | .ok p => dumpPoly p
+  | .none => "none"
+  | .panic => "panic"
+  | .hang => "hang"
+
+def ptris : P (List (Nat × Nat × Nat)) := plist (do let a ← pnat; let b ← pnat; let c ← pnat; pure (a, b, c))
 
 end C12
